@@ -3,6 +3,13 @@
 use std::path::Path;
 
 pub mod optable;
+pub mod generation;
+pub mod instr;
+pub mod alloc;
+pub mod span;
+pub mod prec;
+pub mod glu_std;
+pub mod primtable;
 
 pub struct GenError {
     pub item: String,
